@@ -58,7 +58,7 @@ def simStep (toks : List String) : String :=
           1250 ≤ mtu && mtu ≤ 32768 && 1250 ≤ smtu && smtu ≤ 32768 && dr ≤ 1000 && du ≤ 1000 && re ≤ 1000 &&
           0 < deadline && deadline ≤ 3600000 && idle == 30000 &&
           (proto != "tcp" || (dr + du + re + vanish == 0)) &&
-          (proto == "tcp" || ((sop == "vanish") == (vanish != 0)))
+          (proto == "tcp" || !((sop == "vanish" && vanish == 0) || (vanish != 0 && !(sop == "vanish" || sop == "stall"))))
         if !(okProto && okC && okS && okDom) then "bad-op"
         else
           let planned := if cop == "shutdown_early" || cop == "drop_early" then req / 2 else req
